@@ -544,12 +544,89 @@ class WfqPart:
             keys.append(f"{k}:equal-weights")
         return keys
 
-    # agree_term / model_term are attached below (they need the Coq model)
+    # ---- log -> model actions; Coq terms -----------------------------------------------------------------
+    STEP = {("Initialize", "run"): "FInit", ("StorePut", "store"): "FStoreCb", ("StoreGet", "store"): "FGetDone",
+            ("Initialize", "send_packet"): "FChildInit", ("Timeout", "send_packet"): "FChildTimer",
+            ("Process", "end:send_packet>run"): "FChildEnd"}
+
+    def _cfg(self, case):
+        tbl = cf.lst([cf.pair(cf.z(f), cf.z(c)) for f, c in sorted((int(f), int(c)) for f, c in case["f2c"].items())])
+        if case["kind"] == "wfq":
+            ws = cf.lst([cf.pair(cf.z(c), cf.z(w)) for c, w in sorted((int(c), int(w)) for c, w in case["classes"].items())])
+            return (f"{{| wrate := {cf.q(case['rate'])}; wweights := {ws}; wf2c := f2c_of {tbl}; "
+                    f"wfix_first := {cf.b(case.get('fix_first', True))} |}}")
+        vt = cf.lst([cf.pair(cf.z(c), cf.q(v)) for c, v in sorted((int(c), v) for c, v in case["classes"].items())])
+        return f"{{| vrate := {cf.q(case['rate'])}; vticks := {vt}; vf2c := f2c_of {tbl} |}}"
+
+    def _actions(self, case, obs):
+        specs = case["workload"]["packets"]
+        acts = []
+        for e in obs["log"]:
+            k = e[0]
+            if k == "adv":
+                a, outs = f"FAdvance {cf.q(e[1])}", []
+            elif k == "put":
+                a, outs = f"FPut {ec.pkt_coq(specs[str(e[1])], e[1])}", e[2]
+            elif k == "step":
+                a = self.STEP.get((e[1][0], e[1][1]))
+                if a is None:
+                    return None, f"unexpected kernel step {e[1]}"
+                outs = e[2]
+            else:
+                return None, f"unexpected log entry {e[:2]}"
+            (cur, nit, nrecv, per, x) = e[-1]
+            o = cf.lst([ec.pkt_coq(specs[str(y[2])], y[2]) for y in outs])
+            so = f"({cf.z(cur)}, {cf.nat(nit)}, {cf.z(nrecv)}, {cf.lst([cf.pair(cf.z(f), cf.z(c), cf.z(b)) for f, c, b in per])})"
+            if case["kind"] == "wfq":
+                xo = (f"({cf.q(x['vtime'])}, {cf.q(x['last'])}, {cf.lst([cf.z(c) for c in x['active']])}, "
+                      f"{cf.lst([cf.pair(cf.z(c), cf.q(v)) for c, v in x['fin']])})")
+            else:
+                xo = cf.lst([cf.pair(cf.z(c), cf.q(v)) for c, v in x["aux"]])
+            acts.append(f"({a}, {o}, {so}, {xo})")
+        return acts, None
+
+    def _float_tie_mismatch(self, case, obs):
+        """tolerance mode only: two packets whose stamps are equal in Q but not as the floats the code computed (or the
+        other way round): the service order of the rational model and of the float code may then differ legitimately"""
+        ev = self._events(case, obs)
+        st = self._stamps(case, obs, ev, [])
+        fl = {}
+        for e in obs["log"]:
+            if e[0] == "put":
+                c = self._cls(case, e[1])
+                fl[e[1]] = dict((a, Fraction(b)) for a, b in e[-1][4]["fin"])[c]
+        us = [u for u in st if u in fl]
+        for i, a in enumerate(us):
+            for b in us[i + 1:]:
+                if (st[a] == st[b]) != (fl[a] == fl[b]):
+                    return True
+        return False
+
     def agree_term(self, case, obs):
-        return None
+        if obs["raised"]:
+            return "false"
+        acts, err = self._actions(case, obs)
+        if acts is None:
+            return f"false (* {err} *)"
+        body = cf.lst(acts, sep=";\n    ")
+        if case["kind"] == "wfq":
+            exact = case.get("exact", True)
+            if not exact and self._float_tie_mismatch(case, obs):
+                return None
+            tol = "0" if exact else "(1 # 1000000000)"
+            return f"wfq_agree {self._cfg(case)} {tol} {body}"
+        return f"vc_agree {self._cfg(case)} {body}"
 
     def model_term(self, case):
         return None
+
+    def diag_term(self, case, obs):
+        acts, err = self._actions(case, obs)
+        body = cf.lst(acts, sep=";\n    ")
+        if case["kind"] == "wfq":
+            tol = "0" if case.get("exact", True) else "(1 # 1000000000)"
+            return f"wfq_first_bad {self._cfg(case)} {tol} {body}"
+        return f"vc_first_bad {self._cfg(case)} {body}"
 
 
 def held_c(case, part, uid):
